@@ -1,0 +1,18 @@
+//go:build verif
+
+package rtsp
+
+import "github.com/cnotch/ipchub/media"
+
+// VerifMulticastState reports the bookkeeping of a stream's multicast proxy (only with -tags verif):
+// how many members it has on record, whether it holds its UDP socket and its closed flag.
+// ok is false when ma is not a *multicastProxy.
+func VerifMulticastState(ma media.Multicastable) (members int, sock bool, closed bool, ok bool) {
+	proxy, isProxy := ma.(*multicastProxy)
+	if !isProxy {
+		return 0, false, false, false
+	}
+	proxy.multicastLock.Lock()
+	defer proxy.multicastLock.Unlock()
+	return len(proxy.members), proxy.udpConn != nil, proxy.closed, true
+}
